@@ -48,6 +48,7 @@ type sessionServer struct {
 	lastJoin  string
 	lastCheck string
 	ids       map[string]uuid.UUID
+	fault     string // how hasJoined misbehaves for the current session ("" = it answers properly)
 }
 
 func (s *sessionServer) RoundTrip(req *http.Request) (*http.Response, error) {
@@ -77,6 +78,16 @@ func (s *sessionServer) RoundTrip(req *http.Request) (*http.Response, error) {
 		name := req.URL.Query().Get("username")
 		sid := req.URL.Query().Get("serverId")
 		s.lastCheck = sid
+		switch s.fault {
+		case "403-json":
+			return resp(403, `{"error":"ForbiddenOperationException","errorMessage":"Invalid token."}`), nil
+		case "429-json":
+			return resp(429, `{"error":"TooManyRequestsException","errorMessage":"rate limited"}`), nil
+		case "200-empty-object":
+			return resp(200, `{}`), nil
+		case "500-html":
+			return resp(500, `<html>Internal Server Error</html>`), nil
+		}
 		if s.joined[name] != sid {
 			return resp(204, ""), nil
 		}
@@ -279,7 +290,7 @@ func session(c *vm.Ctx, r *vm.Rand, si int, sess *sessionServer) {
 	threshold := []int{-1, 0, 1, 64, 256, 1 << 15}[r.Intn(6)]
 	name := genNames(r)
 	accept := r.Intn(5) != 0
-	online := r.Intn(4) == 0
+	online := r.Intn(4) == 0 && name != "" // an online profile always has a name (a session reply without one is no confirmation)
 	transport := []string{"tcp", "pipe"}[r.Intn(2)]
 	qkind := []string{"linked", "channel"}[r.Intn(2)]
 	// the configuration step: the minimal one (finish + acknowledgement), or the handler the library itself ships
@@ -478,8 +489,36 @@ func session(c *vm.Ctx, r *vm.Rand, si int, sess *sessionServer) {
 		return nil
 	}})
 
+	fault := ""
+	if online && r.Intn(3) == 0 {
+		fault = []string{"403-json", "429-json", "200-empty-object", "500-html"}[r.Intn(4)]
+	}
+	sess.mu.Lock()
+	sess.fault = fault
+	sess.mu.Unlock()
 	var joinErr error
 	if c.Guard("join", wit, func() { joinErr = cl.JoinServerWithOptions(addr, opts) }) {
+		return
+	}
+	if fault != "" {
+		// the session server did not confirm the player (an error reply, not a profile): nobody may be let in
+		if joinErr == nil {
+			cl.Close()
+		}
+		select {
+		case <-gp.done:
+		case <-time.After(300 * time.Millisecond):
+		}
+		gp.mu.Lock()
+		acc, an, aid := gp.accepted, gp.name, gp.id
+		gp.mu.Unlock()
+		if acc {
+			w := wit().(map[string]any)
+			w["session_server_reply"] = fault
+			c.Violation("join/online/accepted-without-confirmation/"+fault, fmt.Sprintf("the session server answered hasJoined with %s, yet the server let a player in (as %q, uuid %v)", fault, an, aid), w)
+		} else {
+			c.Cover("join.online.unconfirmed-refused")
+		}
 		return
 	}
 	if !accept {
